@@ -196,6 +196,7 @@ func (s *source) BlockByNumber(ctx context.Context, n uint64) (junosync.Committe
 		return junosync.CommittedBlock{}, errNotFound
 	}
 	fault := ""
+	ruleHash := false
 	holdUntil := 0
 	for ri := range s.faults.Rules {
 		ru := &s.faults.Rules[ri]
@@ -208,6 +209,7 @@ func (s *source) BlockByNumber(ctx context.Context, n uint64) (junosync.Committe
 				}
 			case "hash-altered":
 				fault = "hash-altered"
+				ruleHash = true
 				s.hit("rule:hash-altered")
 			case "fail":
 				s.hit("rule:fail")
@@ -253,7 +255,7 @@ func (s *source) BlockByNumber(ctx context.Context, n uint64) (junosync.Committe
 		fault = "corrupt:" + how
 	case "hash-altered":
 		var how string
-		b, how = alterHash(chain[n], r)
+		b, how = alterHash(chain[n], r, ruleHash)
 		s.hit("lie:" + how)
 		valid = false
 		fault = "corrupt:" + how
@@ -280,6 +282,8 @@ func (s *source) BlockByNumber(ctx context.Context, n uint64) (junosync.Committe
 	s.rec.add(entry{Kind: eServed, Req: n, Num: b.Block.Number, Hash: *b.Block.Hash, Parent: *b.Block.ParentHash,
 		Valid: valid, Fault: fault, Epoch: epoch})
 	if err := sleepCtx(ctx, delay); err != nil {
+		// computed but never handed over: the caller sees a failed request
+		s.rec.add(entry{Kind: eServeErr, Req: n, Epoch: epoch, Fault: "cancelled-in-flight"})
 		return junosync.CommittedBlock{}, err
 	}
 	if holdUntil > 0 {
@@ -294,6 +298,7 @@ func (s *source) BlockByNumber(ctx context.Context, n uint64) (junosync.Committe
 			time.Sleep(100 * time.Microsecond)
 		}
 		if ctx.Err() != nil {
+			s.rec.add(entry{Kind: eServeErr, Req: n, Epoch: epoch, Fault: "cancelled-in-flight"})
 			return junosync.CommittedBlock{}, ctx.Err()
 		}
 	}
@@ -382,6 +387,7 @@ func (s *source) BlockHeaderLatest(ctx context.Context) (*core.Header, error) {
 		s.honestLatest.Add(1)
 	}
 	if err := sleepCtx(ctx, delay); err != nil {
+		s.rec.add(entry{Kind: eLatestErr, Epoch: epoch, Fault: "cancelled-in-flight"})
 		return nil, err
 	}
 	return h, nil
@@ -416,12 +422,16 @@ func u64s(n uint64) string {
 
 // alterHash returns a copy of b that claims another hash (it cannot pass verification): the hash
 // alone, hash and parent hash, or number and hash.
-func alterHash(b *lib.Bundle, r *lib.RNG) (*lib.Bundle, string) {
+func alterHash(b *lib.Bundle, r *lib.RNG, keepNumber bool) (*lib.Bundle, string) {
 	c := b.Clone()
 	nh := new(felt.Felt).SetBytes(r.Bytes(31))
 	c.Block.Hash = nh
 	c.SU.BlockHash = nh
-	switch r.Intn(3) {
+	kinds := 3
+	if keepNumber {
+		kinds = 2
+	}
+	switch r.Intn(kinds) {
 	case 0:
 		return c, "hash"
 	case 1:
